@@ -202,6 +202,11 @@ def build_file(unit, units_by_id, prelude_text, types_text, machine_text, out_pa
     """returns meta dict: clause line map, body line range, notes, sha"""
     fn = extract_fn(unit)
     parts = []
+    if unit.get("prelude"):
+        # a unit about the environment data structures themselves uses its own small prelude (the main prelude models
+        # exactly these structures abstractly)
+        prelude_text = open(os.path.join(VERIF, "verus", unit["prelude"] + ".rs")).read()
+        types_text = ""
     pl = prelude_text.replace("\n//@TYPES\n", "\n" + types_text + "\n").replace("\n//@MACHINE\n", "\n" + machine_text + "\n")
     for region in unit.get("omit", []):
         # the prelude's assumed contract of the very function this unit proves is left out
